@@ -60,6 +60,8 @@ def tasks_for(prop, tier):
         ts.append(("c13", "acc", K, "bin_entries", "xvalues"))
     for m in ("bin_entries", "bin_labels", "bin_centers", "n_bins", "mpv", "bin_entries:labels"):
         ts.append(("c13", "acc", "Categorize", m, "full"))
+    for K in ("Bin", "SparselyBin", "CentrallyBin", "IrregularlyBin"):
+        ts.append(("c13", "mpv", K))
     return ts
 
 
@@ -83,6 +85,8 @@ def run_task(P, task, prop, tier, out):
         return {"Bin": index_bin, "SparselyBin": index_sparse, "CentrallyBin": index_central, "IrregularlyBin": index_irr}[K](P, prop, tier, out)
     if kind == "lemma":
         return {"Bin": lemma_bin, "SparselyBin": lemma_sparse, "CentrallyBin": lemma_central, "IrregularlyBin": lemma_irr}[K](P, prop, tier, out)
+    if kind == "mpv":
+        return mpv_numeric(P, K, prop, tier, out)
     if kind == "acc":
         return {"Bin": acc_bin, "SparselyBin": acc_sparse, "CentrallyBin": acc_central, "IrregularlyBin": acc_irr, "Categorize": acc_cat}[K](P, task[3], task[4], prop, tier, out)
     raise ValueError(task)
@@ -1199,3 +1203,77 @@ def acc_cat(P, meth, variant, prop, tier, out):
         }[name]
         prove(out, prop, fi.qualname, clause, p, variant, r.st, goal, tier)
         prove(out, prop, fi.qualname, "ensures:frame", p, variant, r.st, lambda s2: frame_same(s2, pre, selfv), tier)
+
+
+# ------------------------------------------------------------------------------------------------ mpv (numeric classes)
+
+
+def mpv_numeric(P, K, prop, tier, out):
+    """mpv of a filled histogram is the centre of a bin holding the maximum (the first such bin): the property
+    composes bin_entries(), bin_centers() and max(enumerate(...), key=...) (assumed contract: first maximum)"""
+    fi = P.lookup_method(K, "mpv")
+    st = State()
+    half = z3.RealVal("1/2")
+    if K == "Bin":
+        selfv, T = bin_setup(st)
+        ms = bin_models(T)
+        values = st.obj(selfv).fields["values"]
+        n = T.n
+        entry = lambda s, j: core.E(s.view(s.obj(values).get(j).ref))
+        centre = lambda s, j: Fl.fin(T.L + T.delta * (z3.ToReal(j) + half))
+        base = z3.IntVal(0)
+    elif K == "SparselyBin":
+        C = sparse_setup(st)
+        selfv, T = C.selfv, C.T
+        ms = sparse_models(C, (None, None))
+        st.add(C.n > 0)
+        n = C.mx - C.mn + 1
+        base = C.mn
+        entry = lambda s, j: z3.If(C.present(core.KInt(C.mn + j)), core.E(s.view(s.obj(C.bins).val(core.KInt(C.mn + j)).ref)), z3.RealVal(0))
+        centre = lambda s, j: Fl.fin(T.O + T.W * (z3.ToReal(C.mn + j) + half))
+    elif K == "CentrallyBin":
+        C = CentralCtx(st)
+        selfv = C.selfv
+        ms = central_models(C)
+        n = C.n
+        entry = lambda s, j: core.E(s.view(C.child(s, j).ref))
+        centre = lambda s, j: C.c(s, j)
+    else:
+        C = IrrCtx(st)
+        selfv = C.selfv
+        ms = irr_models(C)
+        n = C.n
+        two = Fl.const(2.0)
+        entry = lambda s, j: core.E(s.view(C.child(s, j).ref))
+        centre = lambda s, j: NP.np_div(C.e_up(s, j).add(C.e_up(s, j + 1)), two)
+    X = Exec(P, models.std_hooks(call_models={**models.STD_MODELS, **ms}))
+    pre = st.fork()
+    cover(out, prop, fi.qualname, "cover:filled-histogram", "p0", "full", st, tier)
+    try:
+        res = X.run(st, fi, [selfv])
+    except Unsupported as e:
+        out["out_of_reach"].append({"function": fi.qualname, "reason": str(e)})
+        return
+    add_function(out, fi, "full", paths=len(res))
+    for i, r in enumerate(res):
+        p = f"p{i}"
+        if r.exc is not None:
+            prove(out, prop, fi.qualname, "ensures:no-raise", p + ":" + r.exc.cls, "full", r.st, z3.BoolVal(False), tier)
+            continue
+        am = [t for t in r.st.index_terms if z3.is_const(t) and t.sort() == z3.IntSort() and t.decl().name().startswith("argmax")]
+
+        def goal(s2, r=r, am=am):
+            f = X.B.num(r.v)
+            if f is None or len(am) != 1:
+                return z3.BoolVal(False)
+            a = am[0]
+            j = sk("mpv")
+            s2.add_index(j)
+            hints_idx = [a, j]
+            for t in hints_idx:
+                s2.add_index(t)
+            return z3.And(a >= 0, a < n, f.same(centre(s2, a)), z3.Implies(z3.And(j >= 0, j < n), entry(s2, j) <= entry(s2, a)), z3.Implies(z3.And(j >= 0, j < a), entry(s2, j) < entry(s2, a)))
+
+        hints = step_hints(T.delta if K == "Bin" else T.W, base, am[0]) if K in ("Bin", "SparselyBin") and len(am) == 1 else ()
+        prove(out, prop, fi.qualname, "ensures:centre-of-the-first-fullest-bin", p, "full", r.st, goal, tier, hints=hints)
+        prove(out, prop, fi.qualname, "ensures:frame", p, "full", r.st, lambda s2: frame_same(s2, pre, selfv), tier)
